@@ -235,6 +235,31 @@ def run_cases(res: Result, rng: random.Random, n_msgs: int, hdr_grid: bool, fail
         res.count("register")
         if not ok:
             fails.append({"what": "run-time registered command not dispatched / unknown code not generic", "line": "register()"})
+        # registering a class for a code that already has one (a placeholder command of the library, a typed one, a code
+        # registered a moment ago) replaces it: both R values and the generic decode use the new class
+        for old_code in (283, 272, 7777002, 7777002):
+            saved = commands.all_commands.get(old_code)
+
+            class XVerifOver(DefinedMessage):
+                code = old_code
+                name = "X-Verif-Over"
+
+                def __post_init__(self):
+                    self.header.command_code = self.code
+                    super().__post_init__()
+            try:
+                commands.register(XVerifOver)
+                got = [type(Message.from_bytes(gen.rfc_header(1, 20, fl, old_code, 0, 1, 2))) for fl in (0x80, 0x00)]
+                gotp = type(Message.from_bytes(gen.rfc_header(1, 20, 0x80, old_code, 0, 1, 2), plain_msg=True))
+                res.count("register-over")
+                if any(g is not XVerifOver for g in got) or gotp is not XVerifOver:
+                    fails.append({"what": "a class registered at run time for a code that already had an implementation is not "
+                                          "the one messages of that code decode to", "line": f"register() code {old_code}",
+                                  "real": str([g.__name__ for g in got] + [gotp.__name__])})
+            finally:
+                if old_code in (283, 272):
+                    commands.all_commands[old_code] = saved
+        commands.all_commands.pop(7777002, None)
     except Exception as ex:  # noqa
         fails.append({"what": f"commands.register raised {type(ex).__name__}: {ex}", "line": "register()"})
     # the flag properties of the header: each reads and writes exactly its bit (R 0x80, P 0x40, E 0x20, T 0x10), for every octet
